@@ -80,7 +80,7 @@ def parseRun (run : String) : Option (List (List Byte)) :=
     -- chunks starting with `@` are output-side operations on the same terminal between deliveries (`@sz.W.H`, `@we`,
     -- `@mv.X.Y`, `@er`, `@hc`): the decoder lives in its own part of the state, so the model ignores them
     -- a leading `!` selects the executor's queued channel (reads complete synchronously): same deliveries, same answer
-    let w := if w.startsWith "!" then (w.drop 1).toString else w
+    let w := if w.startsWith "!!" then (w.drop 2).toString else if w.startsWith "!" then (w.drop 1).toString else w
     let cs := (w.splitOn ",").filter fun c => !c.startsWith "@"
     if cs.isEmpty then none else some (cs.map unhex)
 
